@@ -1,12 +1,26 @@
 """C20 - inventory, asset and transfer codecs round-trip"""
-from contracts import c20_native
+from contracts import c20_native, c20_contracts
 
 PID = "C20"
-META = {"level": "other", "explanation": "<filled in later by the framework owner>", "trusted_base": []}
+META = {
+    "level": "other",
+    "explanation": (
+        "P (proved on the real body of Xfer.__init__): the chunks cut from a payload are consecutive slices whose concatenation is the "
+        "length-prefixed payload (ghosts _full/_flat), every chunk but the last has the full chunk size, chunk numbering is dense from 0. "
+        "B (bounded, NOT proved): inventory models in {line format, legacy LLSD, AIS LLSD} at node and model level with every enum "
+        "member and optional-field combination; animations (both layout versions), mesh assets (LOD subsets, skin, physics, weights); "
+        "Xfer and Transfer reassembly for payload sizes around every chunk boundary (1-5 chunks) x all arrival sequences with "
+        "duplicates to a stated extra depth, through the real managers and the LLUDP codec. Three defects fixed, one recorded."),
+    "trusted_base": [
+        "XferManager._handle_send_xfer_packet / reassemble_chunks / TransferManager: bounded tier only",
+        "schema-driven (de)serialisers, llanim, mesh: bounded tier only (reflection over dataclass fields is out of the VC generator's reach)",
+        "TemplateDataPacker.pack(len, MVT_S32) assumed to yield 4 bytes (checked natively in the bounded tier)",
+    ],
+}
 
 
 def register(reg):
-    pass
+    c20_contracts.register_p(reg, PID)
 
 
 BOUNDED = [c20_native.bounded_inventory, c20_native.bounded_animations, c20_native.bounded_meshes, c20_native.bounded_transfers]
